@@ -1,1 +1,271 @@
-//! placeholder
+//! C04 (FEN fields, move naming), C11 (Zobrist hash), C14 (static evaluation), C09-R1 (repetition table).
+use crate::board::{Board, Castle};
+use crate::common::*;
+use crate::moves::{Move, MoveType};
+use crate::pieces::{Color, Piece};
+use crate::spec::*;
+use crate::sym;
+
+// ------------------------------------------------------------------------------------------ C04-F
+fn str_of(buf: &[u8], len: usize) -> &str { unsafe { core::str::from_utf8_unchecked(core::slice::from_raw_parts(buf.as_ptr(), len)) } }
+/// the same mapping as LETTERS, as a chain of conditionals: the symbolic byte is then an if-then-else
+/// over constants, and CBMC folds `byte == '/'` to false (an array read would not fold)
+fn letter(c: u8) -> u8 {
+    if c == 0 { b'1' } else if c == 1 { b'P' } else if c == 2 { b'N' } else if c == 3 { b'B' } else if c == 4 { b'R' } else if c == 5 { b'Q' } else if c == 6 { b'K' }
+    else if c == 7 { b'p' } else if c == 8 { b'n' } else if c == 9 { b'b' } else if c == 10 { b'r' } else if c == 11 { b'q' } else { b'k' }
+}
+/// byte-at-a-time model of core's memchr (word-at-a-time bit tricks defeat constant folding)
+pub fn stub_memchr(x: u8, text: &[u8]) -> Option<usize> { let mut i = 0; while i < text.len() { if text[i] == x { return Some(i); } i += 1; } None }
+const LETTERS: [u8; 13] = [b'1', b'P', b'N', b'B', b'R', b'Q', b'K', b'p', b'n', b'b', b'r', b'q', b'k'];
+
+/// One rank (concrete index RANK_IDX in the string, i.e. rank 8-RANK_IDX) holds any eight symbolic
+/// squares (13 states each, spelled without digit runs: "1" per empty square); the other ranks are
+/// the start position's.  parse_piece_placement reconstructs exactly that placement.
+fn placement_one_rank(idx: usize, nsym: usize) {
+    const START: [&[u8; 8]; 8] = [b"rnbqkbnr", b"pppppppp", b"11111111", b"11111111", b"11111111", b"11111111", b"PPPPPPPP", b"RNBQKBNR"];
+    let mut s = [b'/'; 71];
+    let mut want = Pos { pc: [0; 6], col: [0; 2], stm: 0, cr: [false; 4], ep: 64 };
+    let mut i = 0;
+    while i < 8 {
+        let rank = 7 - i;
+        let mut f = 0;
+        while f < 8 {
+            let c = if i == idx && f < nsym { let c = sym::u8(); sym::assume(c < 13); c } else {
+                let ch = START[i][f]; let mut k = 0u8; let mut j = 0; while j < 13 { if LETTERS[j] == ch { k = j as u8; } j += 1; } k };
+            s[i * 9 + f] = if i == idx && f < nsym { letter(c) } else { START[i][f] };
+            if c > 0 {
+                let sq = (rank * 8 + f) as u8;
+                want.pc[((c - 1) % 6) as usize] |= bit(sq);
+                want.col[if c <= 6 { 0 } else { 1 }] |= bit(sq);
+            }
+            f += 1;
+        }
+        i += 1;
+    }
+    let text = str_of(&s, 71);
+    vnote!("placement", "{}", text);
+    let got = crate::fen::vh::placement(text);
+    vassert!(got.is_ok(), "C04: a well-formed piece placement is rejected");
+    if let Ok(pos) = got {
+        let b = Board { position: pos, active_color: Color::White, castling_ability: Castle::new(false, false, false, false), en_passant_target: None, halfmove_clock: 0, fullmove_counter: 1 };
+        let p = from_board(&b);
+        vassert!(p.pc[0] == want.pc[0] && p.pc[1] == want.pc[1] && p.pc[2] == want.pc[2] && p.pc[3] == want.pc[3] && p.pc[4] == want.pc[4] && p.pc[5] == want.pc[5],
+            "C04: piece placement parsed from FEN differs from the FEN (piece kinds)");
+        vassert!(p.col[0] == want.col[0] && p.col[1] == want.col[1], "C04: piece placement parsed from FEN differs from the FEN (colours)");
+    }
+    vcover!(want.pc[5] & want.col[1] & bit((7 - idx as u8) * 8 + 4) != 0, "black king on the e-file of the symbolic rank");
+}
+macro_rules! rank_harness { ($name:ident, $i:literal) => {
+    #[cfg_attr(kani, kani::proof)]
+    #[cfg_attr(kani, kani::unwind(73))]
+    pub fn $name() { placement_one_rank($i, 1); }
+}; }
+rank_harness!(c04_placement_rank8, 0); rank_harness!(c04_placement_rank7, 1); rank_harness!(c04_placement_rank6, 2); rank_harness!(c04_placement_rank5, 3);
+rank_harness!(c04_placement_rank4, 4); rank_harness!(c04_placement_rank3, 5); rank_harness!(c04_placement_rank2, 6); rank_harness!(c04_placement_rank1, 7);
+
+/// One rank spelled with digit runs (every way of splitting runs of empty squares, e.g. "3p4",
+/// "12p31", "8"), as the first or the last rank of the placement; the others empty ("8").
+fn placement_with_runs(last: bool) {
+    let mut rank = [b'8'; 16]; let mut len = 0usize;
+    let mut codes = [0u8; 8];
+    let mut run = 0u8; let mut f = 0;
+    while f < 8 {
+        let c = sym::u8(); sym::assume(c < 13);
+        codes[f] = c;
+        if c == 0 {
+            // optionally close the current run before this empty square ("11" instead of "2")
+            if run > 0 && sym::bool() { rank[len] = b'0' + run; len += 1; run = 0; }
+            run += 1;
+        } else {
+            if run > 0 { rank[len] = b'0' + run; len += 1; run = 0; }
+            rank[len] = LETTERS[c as usize]; len += 1;
+        }
+        f += 1;
+    }
+    if run > 0 { rank[len] = b'0' + run; len += 1; }
+    let mut s = [0u8; 32]; let mut n = 0;
+    if last { let pre = b"8/8/8/8/8/8/8/"; let mut i = 0; while i < 14 { s[n] = pre[i]; n += 1; i += 1; } }
+    let mut i = 0; while i < 16 { if i < len { s[n] = rank[i]; n += 1; } i += 1; }
+    if !last { let post = b"/8/8/8/8/8/8/8"; let mut i = 0; while i < 14 { s[n] = post[i]; n += 1; i += 1; } }
+    let text = str_of(&s, n);
+    vnote!("placement", "{}", text);
+    let got = crate::fen::vh::placement(text);
+    vassert!(got.is_ok(), "C04: a well-formed piece placement is rejected");
+    if let Ok(pos) = got {
+        let r = if last { 0 } else { 7 };
+        let mut ok = true; let mut f = 0;
+        while f < 8 {
+            let sq = (r * 8 + f) as u8; let c = codes[f];
+            let mut pi = 0;
+            while pi < 6 {
+                let w = pos.bb(Color::White, piece_of(pi as u8)) & bit(sq) != 0;
+                let b = pos.bb(Color::Black, piece_of(pi as u8)) & bit(sq) != 0;
+                let ww = c >= 1 && c <= 6 && (c - 1) as usize == pi; let wb = c >= 7 && (c - 7) as usize == pi;
+                if w != ww || b != wb { ok = false; }
+                pi += 1;
+            }
+            f += 1;
+        }
+        vassert!(ok, "C04: rank with digit runs parsed onto the wrong squares");
+        let others = if last { !0xFFu64 } else { !(0xFFu64 << 56) };
+        vassert!((pos.bb_color(Color::White) | pos.bb_color(Color::Black)) & others == 0, "C04: pieces appear on ranks the FEN leaves empty");
+    }
+    vcover!(len == 1, "rank spelled 8");
+    vcover!(len >= 3 && codes[0] == 0 && codes[1] == 0 && codes[2] != 0 && rank[0] == b'1' && rank[1] == b'1', "run split as 11");
+}
+// piece_of lives in common.rs: 0 pawn .. 5 king, matching LETTERS order P N B R Q K
+#[cfg_attr(kani, kani::proof)]
+#[cfg_attr(kani, kani::unwind(34))]
+pub fn c04_placement_runs_first_rank() { placement_with_runs(false); }
+#[cfg_attr(kani, kani::proof)]
+#[cfg_attr(kani, kani::unwind(34))]
+pub fn c04_placement_runs_last_rank() { placement_with_runs(true); }
+
+/// Side to move.
+#[cfg_attr(kani, kani::proof)]
+#[cfg_attr(kani, kani::unwind(6))]
+pub fn c04_color() {
+    let w = sym::bool();
+    let cs = if w { "w" } else { "b" };
+    let c = crate::fen::vh::color(cs);
+    vassert!(matches!((w, c), (true, Ok(Color::White)) | (false, Ok(Color::Black))), "C04: side to move parsed wrongly");
+    vcover!(!w, "black to move");
+}
+/// Castling availability: N distinct letters out of KQkq in any order (N concrete per harness), or "-".
+fn castling_case(n: usize) {
+    let mut buf = [b'-'; 4]; let mut want = [false; 4];
+    let mut i = 0;
+    while i < n {
+        let k = sym::u8(); sym::assume(k < 4 && !want[k as usize]);
+        want[k as usize] = true;
+        buf[i] = if k == 0 { b'K' } else if k == 1 { b'Q' } else if k == 2 { b'k' } else { b'q' };
+        i += 1;
+    }
+    let text = str_of(&buf, if n == 0 { 1 } else { n });
+    vnote!("castling", "{}", text);
+    match crate::fen::vh::castling(text) {
+        Ok(cr) => { let r = crate::board::vh::rights(&cr); vassert!(r[0] == want[0] && r[1] == want[1] && r[2] == want[2] && r[3] == want[3], "C04: castling availability parsed wrongly"); }
+        Err(_) => vassert!(false, "C04: well-formed castling field rejected"),
+    }
+    vcover!(n == 0 || buf[0] == b'q', "letters not in KQkq order (or none)");
+}
+macro_rules! castling_harness { ($name:ident, $n:literal) => {
+    #[cfg_attr(kani, kani::proof)]
+    #[cfg_attr(kani, kani::unwind(8))]
+    pub fn $name() { castling_case($n); }
+}; }
+castling_harness!(c04_castling_0, 0); castling_harness!(c04_castling_1, 1); castling_harness!(c04_castling_2, 2);
+castling_harness!(c04_castling_3, 3); castling_harness!(c04_castling_4, 4);
+/// En-passant target: all 16 squares, and "-".
+#[cfg_attr(kani, kani::proof)]
+#[cfg_attr(kani, kani::unwind(8))]
+pub fn c04_ep_square() {
+    let file = sym::u8(); sym::assume(file < 8);
+    let r6 = sym::bool();
+    let eb = [b'a' + file, if r6 { b'6' } else { b'3' }];
+    let et = str_of(&eb, 2);
+    vnote!("ep", "{}", et);
+    match crate::fen::vh::ep(et) {
+        Ok(Some(sq)) => vassert!(sq == (if r6 { 40 } else { 16 }) + file, "C04: en-passant square parsed wrongly"),
+        Ok(None) => vassert!(false, "C04: en-passant square dropped"),
+        Err(_) => vassert!(false, "C04: well-formed en-passant field rejected"),
+    }
+    vassert!(matches!(crate::fen::vh::ep("-"), Ok(None)), "C04: '-' not read as 'no en-passant square'");
+    vcover!(r6 && file == 7, "ep h6");
+}
+
+/// Move counters of 1..4 digits: every value a real game can reach (and beyond, up to 9999) is
+/// accepted without failure and read correctly.  The longest possible game is below 9000 moves.
+#[cfg_attr(kani, kani::proof)]
+#[cfg_attr(kani, kani::unwind(6))]
+pub fn c04_counters() {
+    let len = sym::u8() as usize; sym::assume(len >= 1 && len <= 4);
+    let mut buf = [b'0'; 4]; let mut val = 0u64;
+    let mut i = 0;
+    while i < 4 { if i < len { let d = sym::u8(); sym::assume(d < 10); buf[i] = b'0' + d; val = val * 10 + d as u64; } i += 1; }
+    let text = str_of(&buf, len);
+    vnote!("counter", "{}", text);
+    let half = sym::bool();
+    if half {
+        // halfmove clock: at most 150 under the 75-move rule
+        sym::assume(val <= 150);
+        vassert!(crate::fen::vh::halfmove(text) == val, "C04: halfmove clock read wrongly");
+    } else {
+        sym::assume(val >= 1);
+        vassert!(crate::fen::vh::fullmove(text) == val, "C04: fullmove counter read wrongly");
+    }
+    vcover!(!half && val == 256, "fullmove 256");
+    vcover!(!half && val == 8848, "fullmove 8848");
+    vcover!(half && val == 150, "halfmove 150");
+}
+
+// ------------------------------------------------------------------------------------------ C04-M
+fn uci_name(m: &Move) -> ([u8; 5], usize) {
+    let mut o = [0u8; 5];
+    o[0] = b'a' + m.from % 8; o[1] = b'1' + m.from / 8; o[2] = b'a' + m.to % 8; o[3] = b'1' + m.to / 8;
+    if m.move_type == MoveType::Promotion {
+        o[4] = match m.piece_type { Piece::Knight => b'n', Piece::Bishop => b'b', Piece::Rook => b'r', _ => b'q' };
+        (o, 5)
+    } else { (o, 4) }
+}
+/// Move::to_algebraic is the UCI long-algebraic name of (from, to, promotion piece).
+#[cfg_attr(kani, kani::proof)]
+#[cfg_attr(kani, kani::unwind(8))]
+pub fn c04_move_name() {
+    let m = any_move();
+    sym::assume(m.move_type != MoveType::Promotion || matches!(m.piece_type, Piece::Knight | Piece::Bishop | Piece::Rook | Piece::Queen));
+    let s = m.to_algebraic();
+    let (w, n) = uci_name(&m);
+    let b = s.as_bytes();
+    vassert!(b.len() == n, "C04: move name has the wrong length");
+    if b.len() == n {
+        vassert!(b[0] == w[0] && b[1] == w[1] && b[2] == w[2] && b[3] == w[3], "C04: move name has the wrong squares");
+        if n == 5 { vassert!(b[4] == w[4], "C04: promotion letter wrong"); }
+    }
+    vcover!(n == 5 && w[4] == b'n', "knight promotion");
+    vcover!(m.move_type == MoveType::Castle && n == 4, "castle named as king move");
+}
+/// Two different legal moves of one position never share a name, so `make_moves` (first generated
+/// move whose name equals the token) picks the move the token denotes.
+#[cfg_attr(kani, kani::proof)]
+#[cfg_attr(kani, kani::unwind(9))]
+pub fn c04_names_distinct() {
+    let b = any_board();
+    let p = from_board(&b);
+    sym::assume(valid(&p));
+    let m1 = any_move(); let m2 = any_move();
+    sym::assume(pseudo_legal(&p, &m1) && pseudo_legal(&p, &m2));
+    sym::assume(!(m1.from == m2.from && m1.to == m2.to && m1.piece_type == m2.piece_type && m1.move_type == m2.move_type));
+    let (a, na) = uci_name(&m1); let (c, nc) = uci_name(&m2);
+    let same = na == nc && a[0] == c[0] && a[1] == c[1] && a[2] == c[2] && a[3] == c[3] && a[4] == c[4];
+    vassert!(!same, "C04: two different pseudo-legal moves of one position have the same UCI name");
+    vcover!(m1.from == m2.from && m1.to == m2.to, "same squares, different promotion piece");
+}
+
+// ------------------------------------------------------------------------------------------ C09-R1
+use crate::repetition::RepetitionTable;
+/// is_repetition(h) <=> h occurs at least twice in the stack; push/pop are LIFO.  The stack
+/// height N is concrete per harness (a symbolic number of Vec pushes does not get through CBMC).
+fn repetition_case(n: usize) {
+    let mut t = RepetitionTable::new();
+    let h = sym::u64();
+    let mut count = 0; let mut i = 0;
+    while i < n { let x = sym::u64(); t.push(x); if x == h { count += 1; } i += 1; }
+    vassert!(t.len() == n, "C09: history length differs from the number of positions recorded");
+    vassert!(t.is_repetition(h) == (count >= 2), "C09: is_repetition disagrees with 'occurred at least twice before'");
+    // push then pop leaves the answer for every hash unchanged
+    let x = sym::u64();
+    t.push(x); t.pop();
+    vassert!(t.len() == n, "C09: push/pop does not restore the history length");
+    vassert!(t.is_repetition(h) == (count >= 2), "C09: push/pop changed the recorded history");
+    if n >= 2 { vcover!(count == 2, "exactly two earlier occurrences"); }
+    vcover!(count == 0, "no earlier occurrence");
+    core::mem::forget(t);
+}
+macro_rules! rep_harness { ($name:ident, $n:literal) => {
+    #[cfg_attr(kani, kani::proof)]
+    #[cfg_attr(kani, kani::unwind(8))]
+    pub fn $name() { repetition_case($n); }
+}; }
+rep_harness!(c09_reptable_0, 0); rep_harness!(c09_reptable_1, 1); rep_harness!(c09_reptable_2, 2);
+rep_harness!(c09_reptable_3, 3); rep_harness!(c09_reptable_4, 4); rep_harness!(c09_reptable_6, 6);
